@@ -305,6 +305,7 @@ func typeIs[T any](x any, _ T) bool { return true }
 //@   at call packet.marshal assert#crc-for-init-and-cookie-echo{C13} !arg1 ==> forall j int :: 0 <= j && j < len(p.chunks) ==> !typeIs(p.chunks[j], (*chunkInit)(nil)) && !typeIs(p.chunks[j], (*chunkCookieEcho)(nil))
 
 //@ func Association.unmarshalPacket
+//@   ensures#non-nil{C13,C03} result1 == nil ==> result0 != nil
 //@   at call packet.unmarshal assert#verify-unless-accepted{C13} arg1 == !a.recvZeroChecksum
 //@   ensures#verify{C13} result1 == nil ==> len(raw) >= 12 && (old(specLE32(raw, 8) == generatePacketChecksum(raw)) ||
 //@      (old(specLE32(raw, 8)) == 0 && a.recvZeroChecksum && !(len(raw) >= 16 && (old(raw[12]) == 1 || old(raw[12]) == 10))))
